@@ -109,6 +109,10 @@ func (in *Interp) invoke(recv Val, m *types.Func, args []Val, rt types.Type, st 
 			return v
 		}
 	}
+	if in.PureInvoke {
+		in.event(Event{Kind: "invoke", Note: m.Name(), Args: append([]Val{recv}, args...)})
+		return in.opaqueNamed(rt, m.Name(), append([]Val{recv}, args...)...)
+	}
 	return in.opaqueCall("invoke:"+m.FullName(), nil, append([]Val{recv}, args...), rt, st)
 }
 
@@ -116,7 +120,11 @@ func (in *Interp) invoke(recv Val, m *types.Func, args []Val, rt types.Type, st 
 // unknown, and every object reachable through pointer/slice arguments may be
 // written.
 func (in *Interp) opaqueCall(name string, fn *ssa.Function, args []Val, rt types.Type, st *State) Val {
-	in.event(Event{Kind: "call", Note: name, Args: args})
+	snap := make([]Val, len(args))
+	for i, a := range args {
+		snap[i] = in.snapshot(st, a)
+	}
+	in.event(Event{Kind: "call", Note: name, Args: snap})
 	pure := fn != nil && in.PureFn != nil && in.PureFn(fn)
 	if !pure {
 		for _, a := range args {
@@ -352,4 +360,23 @@ func (in *Interp) appendBuiltin(a, b Val, rt types.Type, st *State) Val {
 	}
 	o.Len = ln
 	return &SliceV{Obj: o, Lo: constInt(0, 64, true), Len: ln, Elem: et}
+}
+
+// snapshot replaces a short constant-length slice argument by its element
+// values at the time of the call (the callee may be opaque and havoc it).
+func (in *Interp) snapshot(st *State, v Val) Val {
+	s, ok := v.(*SliceV)
+	if !ok {
+		return v
+	}
+	n, ok1 := s.Len.ConstInt()
+	lo, ok2 := s.Lo.ConstInt()
+	if !ok1 || !ok2 || n > 16 {
+		return v
+	}
+	sv := &StructV{}
+	for i := int64(0); i < n; i++ {
+		sv.Fields = append(sv.Fields, in.loadPath(st, s.Obj, joinPath(s.Prefix, int(lo+i)), s.Elem))
+	}
+	return sv
 }
